@@ -215,7 +215,7 @@ theorem lock_block_iff_disabled {w : World} {c : TCtl} {mi : Nat} {m : MutexSt} 
     (hop : SC.opOf p s (bodyOf w w.tid) = some (.lock mi)) :
     w.runOp c (.lock mi) =
       (w.setStage 1).branch (w.mutexObj mi) .opaque
-        (block := !(SC.enabled p s (bodyOf w w.tid))) := by
+        (block := !(SC.enabled p s (bodyOf w w.tid))) (wait := true) := by
   rw [SC_enabled_lock hv hst hfin hw hcv hop, hrel mi, absMutex_of h, runOp_lock]
   simp only [hs, getMutex_of h, bind, Except.bind]
   cases m.lock <;> rfl
